@@ -118,6 +118,8 @@ func Run(sc *Scenario, hooks *Hooks) *Outcome {
 			rule.Dec.Err = faultdb.ErrInjected
 		case "delay":
 			rule.Dec.Delay = time.Duration(f.DelayUs) * time.Microsecond
+		case "delay-after":
+			rule.Dec.DelayAfter = time.Duration(f.DelayUs) * time.Microsecond
 		}
 		r.Script.Add(rule)
 	}
